@@ -390,6 +390,13 @@ theorem sends_stepEvents (st : Step) :
     Link.sends (stepEvents lower N st) = st.out.map (fun p => ⟨st.t, N.host, 0, none, itemsOf lower N p⟩) := by
   simp [stepEvents, Link.sends, List.filterMap_append, List.filterMap_map, Function.comp_def, filterMap_const_none]
 
+theorem upds_append (a b : Link.Trace) : Link.upds (a ++ b) = Link.upds a ++ Link.upds b := by
+  simp [Link.upds, List.filterMap_append]
+
+theorem upds_stepEvents (st : Step) :
+    Link.upds (stepEvents lower N st) = (updSvcs lower N st).map (fun s => (st.t, s)) := by
+  simp [stepEvents, Link.upds, List.filterMap_append, List.filterMap_map, Function.comp_def, filterMap_const_none]
+
 theorem events_cons (st : Step) (l : List Step) : events lower N (st :: l) = stepEvents lower N st ++ events lower N l := by
   simp [events]
 
